@@ -13,6 +13,7 @@ import (
 type VTok struct {
 	ID    int
 	nexts int // items already produced as an iterator
+	trues int // how often the truth value came out true
 }
 
 var (
@@ -143,7 +144,14 @@ func (t *VTok) M__bool__() (py.Object, error) {
 	if vOutcomes > 1 && verifChoice("out"+n, vOutcomes) == 1 {
 		return nil, vErr
 	}
-	return py.NewBool(verifBool("truth" + n)), nil
+	if t.trues >= vMaxItems {
+		return py.False, nil // bounded: a token is true at most vMaxItems times (keeps loops finite)
+	}
+	b := verifBool("truth" + n)
+	if b {
+		t.trues++
+	}
+	return py.NewBool(b), nil
 }
 
 // iteration: a token is its own iterator with a symbolic number of items
@@ -211,4 +219,16 @@ func VName(o py.Object) string {
 		return "False"
 	}
 	return vName(o)
+}
+
+// VTraceOps wraps every jump table entry so that executed opcodes are logged (debug aid).
+func VTraceOps() {
+	for i := range jumpTable {
+		op := OpCode(i)
+		f := jumpTable[i]
+		jumpTable[i] = func(vm *Vm, arg int32) error {
+			vLog = append(vLog, "op"+strconv.Itoa(int(op))+":"+strconv.Itoa(int(arg))+"@"+strconv.Itoa(int(vm.frame.Lasti))+"/"+strconv.Itoa(len(vm.frame.Stack))+"/"+strconv.Itoa(len(vm.frame.Blockstack)))
+			return f(vm, arg)
+		}
+	}
 }
